@@ -89,6 +89,7 @@ def cointypes(ctx):
 @PROP.obligation('C09.path-expand', canaries=[
     mut.replace_expr('keys', 'path_expand', "path_template[i][-1:] == \"'\"", 'False', 'template hardening ignored'),
     mut.replace_expr('keys', 'path_expand', 'account_id', 'change', 'account level filled with the change flag'),
+    mut.replace_expr('keys', 'path_expand', 'deepcopy(path)', 'path', 'completion loop pops from the caller\'s list', nth=0),
 ])
 def path_expand(ctx):
     """keys.path_expand([], template, ...) evaluated for every path template of the table with sentinel values (purpose 901, coin type 902,
@@ -116,6 +117,15 @@ def path_expand(ctx):
         if len(rets) != 1 or not isinstance(rets[0].value, list) or not all(isinstance(x, str) for x in rets[0].value):
             ctx.undecided('path_expand not decidable on template %s: %s' % (tpl, [(e.kind, show(term(e.value))[:80]) for e in exits][:3]))
         return rets[0].value
+
+    def run(path, tpl, wt='segwit', _run=run):
+        # the caller's list is an input, not a work area: Wallet.keys_for_path hands the same list to every cosigner wallet
+        given = list(path)
+        got = _run(path, tpl, wt)
+        ctx.require(path == given, 'keys:path_expand', 'the path list handed in (%s) is %s after the call: path_expand consumes its argument' % ('/'.join(given) or 'empty', '/'.join(path) or 'empty'), fn,
+                    'a caller that uses the list again (keys_for_path passes it on to each cosigner wallet) gets the key at change 0 / index 0 instead of the path it asked for')
+        path[:] = given
+        return got
     for tpl in templates:
         got = run([], tpl)
         exp = ['m'] + ['%d%s' % (sent[v.rstrip("'")], "'" if v.endswith("'") else '') for v in tpl[1:]]
@@ -748,3 +758,72 @@ def structure_lookups(ctx):
                 elif 'multisig' not in norm(second):
                     ctx.unsure('%s:%s: structure selected with `%s` as multisig flag' % (mn, q, norm(second)))
     ctx.floor(n, 6, 'structure lookups')
+
+
+@PROP.obligation('C09.requested-network', canaries=[
+    mut.replace_expr('wallets', 'Wallet.create', 'network and network != key.network.name', 'network and network != key.network.name and Network(network).prefix_wif != key.network.prefix_wif',
+                     'key objects of a network with the same WIF version accepted, then their network adopted'),
+])
+def requested_network(ctx):
+    """Wallet.create(..., keys=<HDKey object>, network=X): the statement that handles one key of the list is evaluated for a key object of
+    network K and a requested network X over a table of (X, K) pairs, with Network(...) answering from data/networks.json. Whenever the
+    wallet is created (no raise) and a network was requested, the network it continues with IS the requested one - a key of a sibling
+    network (regtest / bitcoin, testnet / signet / testnet4, litecoin / litecoin_legacy share version bytes) does not silently replace it."""
+    import json
+    import os
+    q = 'wallets:Wallet.create'
+    fn = ctx.repo.func(q)
+    loops = [n for n in ast.walk(fn) if isinstance(n, ast.For) and norm(n.iter) == 'keys' and any(isinstance(x, ast.Call) and norm(x.func) == 'isinstance' and 'HDKey' in norm(x) for x in ast.walk(n))]
+    if len(loops) != 1:
+        ctx.undecided('Wallet.create: the loop over the supplied keys was not found (%d candidates)' % len(loops))
+    try:
+        data = json.load(open(os.path.join(ctx.repo.root, 'bitcoinlib', 'data', 'networks.json')))
+    except Exception as e:
+        ctx.undecided('networks.json unreadable: %r' % e)
+    pairs = [('regtest', 'bitcoin'), ('bitcoin', 'regtest'), ('testnet', 'bitcoin'), ('signet', 'testnet'), ('testnet4', 'testnet'), ('litecoin_testnet', 'testnet'),
+             ('litecoin_legacy', 'litecoin'), ('litecoin', 'bitcoin'), ('bitcoin', 'bitcoin'), ('testnet', 'testnet'), (None, 'bitcoin'), (None, 'litecoin')]
+    pairs = [(x, k) for x, k in pairs if (x is None or x in data) and k in data]
+    n = 0
+    for req, knet in pairs:
+        K = ('var', 'key')
+        NET = ('attr', K, 'network')
+
+        def h_network(it, args, kwargs, st, node, _data=data):
+            nm = args[0] if args else kwargs.get('network_name')
+            if not isinstance(nm, str) or nm not in _data:
+                raise AnalysisError('Network(%s) not in the table' % show(term(nm))[:30])
+            base = ('net', nm)
+            st.heap.update({('attr', base, a): v for a, v in _data[nm].items() if isinstance(v, (str, int))})
+            st.heap[('attr', base, 'name')] = nm
+            return S(base)
+
+        def decide(t):
+            if isinstance(t, tuple) and t and t[0] == 'isinstance' and t[1] == K:
+                return 'HDKey' in show(t[2])
+            return None
+        it = Interp(ctx.repo, 'wallets', hooks={'Network': h_network}, decide=decide)
+        st = State(env={'key': S(K), 'network': req, 'witness_type': None, 'password': '', 'encoding': None, 'scheme': 'bip32', 'hdkey_list': []})
+        for a, v in data[knet].items():
+            if isinstance(v, (str, int)):
+                st.heap[('attr', NET, a)] = v
+        st.heap[('attr', NET, 'name')] = knet
+        st.heap[('attr', K, 'witness_type')] = 'segwit'
+        it.frames.append([])
+        try:
+            end = it.exec_block(loops[0].body, st)
+        except AnalysisError as e:
+            ctx.undecided('Wallet.create: handling of a %s key object with network=%r not evaluable: %s' % (knet, req, str(e)[:100]))
+        raised = [e for e in it.frames[-1] if e.kind == 'raise']
+        if end is not None and end.pc:
+            ctx.undecided('Wallet.create: outcome for a %s key object with network=%r depends on %s' % (knet, req, [show(t)[:50] for t, _ in end.pc][:2]))
+        n += 1
+        got = term(end.env.get('network')) if end is not None else None
+        ctx.saw('requested %r, key object of %s -> %s' % (req, knet, 'refused' if end is None else 'continues with network %s' % show(got)[:30]))
+        if req is None:
+            ctx.require(end is not None and got == knet, q, 'without a requested network a %s key object gives network %s' % (knet, 'a refusal' if end is None else show(got)[:30]), loops[0])
+        elif req == knet:
+            ctx.require(end is not None and got == req, q, 'a %s key object is %s for the requested network %s' % (knet, 'refused' if end is None else 'turned into network %s' % show(got)[:30], req), loops[0])
+        else:
+            ctx.require(end is None or got == req, q, 'network=%r was requested and a key object of network %s is accepted: the wallet continues with network %s' % (req, knet, show(got)[:30]), loops[0],
+                        'Wallet.create(name, keys=key_object, network="%s") silently returns a %s wallet: its addresses are not the ones this seed has on the requested network' % (req, knet))
+    ctx.floor(n, 8, '(requested network, key network) pairs')
